@@ -32,10 +32,18 @@ C_Range(P, o) == /\ Len(o.range) = Cardinality(P)
                  /\ {<<o.range[i][1], o.range[i][2]>> : i \in 1..Len(o.range)} = P
 \* Range stops when its callback says so: asked to stop after the first pair it visits min(1,|P|) pairs
 C_RangeStop(P, o) == o.stop1 = (IF P = {} THEN 0 ELSE 1)
+\* single look-ups as calls of their own (used between changes with nothing else observed: what a Bimap may remember from one
+\* look-up must not survive a change)
+C_Probe(P, e) ==
+  CASE e.op = "GetForward" -> IF \E p \in P : p[1] = e.k THEN e.pok /\ <<e.k, e.pr>> \in P ELSE ~e.pok /\ e.pr = 0
+    [] e.op = "GetReverse" -> IF \E p \in P : p[2] = e.v THEN e.pok /\ <<e.pr, e.v>> \in P ELSE ~e.pok /\ e.pr = 0
+    [] e.op = "ContainsForward" -> e.pok = (\E p \in P : p[1] = e.k)
+    [] e.op = "ContainsReverse" -> e.pok = (\E p \in P : p[2] = e.v)
+    [] OTHER -> TRUE
 C_NoPanic(e) == e.panic = ""
 AllN(P, o) == C_Inverse(o) /\ C_Model(P, o) /\ C_Contains(o) /\ C_Len(P, o) /\ C_Range(P, o) /\ C_RangeStop(P, o)
 \* (q: in large universes the whole API is read back only at chosen points; Len after every call)
-All(s, e) == C_NoPanic(e) /\ IF e.q THEN C_Len(s["a"], e.obs.a) /\ C_Len(s["b"], e.obs.b) ELSE AllN(s["a"], e.obs.a) /\ AllN(s["b"], e.obs.b)
+All(s, e) == C_NoPanic(e) /\ C_Probe(s[e.n], e) /\ IF e.q THEN C_Len(s["a"], e.obs.a) /\ C_Len(s["b"], e.obs.b) ELSE AllN(s["a"], e.obs.a) /\ AllN(s["b"], e.obs.b)
 TInit == bm = [n \in Names |-> {}] /\ l = 1
 Reset == l <= Len(Trace) /\ Ev.op = "Reset" /\ l' = l + 1 /\ bm' = [n \in Names |-> {}] /\ (Gate => All(bm', Ev))
 Step == /\ l <= Len(Trace) /\ Ev.op # "Reset" /\ l' = l + 1
@@ -50,6 +58,7 @@ I_Model == (Chk /\ ~Obs.q) => C_Model(bm["a"], Obs.obs.a) /\ C_Model(bm["b"], Ob
 I_Contains == (Chk /\ ~Obs.q) => C_Contains(Obs.obs.a) /\ C_Contains(Obs.obs.b)
 I_Len == Chk => C_Len(bm["a"], Obs.obs.a) /\ C_Len(bm["b"], Obs.obs.b)
 I_Range == (Chk /\ ~Obs.q) => C_Range(bm["a"], Obs.obs.a) /\ C_Range(bm["b"], Obs.obs.b)
+I_Probe == Chk /\ Obs.op # "Reset" => C_Probe(bm[Obs.n], Obs)
 I_RangeStop == (Chk /\ ~Obs.q) => C_RangeStop(bm["a"], Obs.obs.a) /\ C_RangeStop(bm["b"], Obs.obs.b)
 Track == TrackL(l)
 Accepted == AcceptedP
